@@ -17,9 +17,9 @@ import (
 	toml "github.com/pelletier/go-toml"
 	"github.com/vimeo/dials"
 	"github.com/vimeo/dials/ez"
-	"github.com/vimeo/dials/tagformat/caseconversion"
 	stdflagsrc "github.com/vimeo/dials/sources/flag"
 	pflagsrc "github.com/vimeo/dials/sources/pflag"
+	"github.com/vimeo/dials/tagformat/caseconversion"
 	yaml "gopkg.in/yaml.v2"
 
 	"verifharness/conc"
